@@ -85,6 +85,8 @@ LAYOUTS = {
     'same_dir': ('/srv/build/a.min.js', '/srv/build/a.min.js.map', '/srv/src/a.js'),
     'map_deeper': ('/srv/build/a.min.js', '/srv/build/maps/a.min.js.map', '/srv/src/a.js'),
     'map_above': ('/srv/build/js/a.min.js', '/srv/build/a.min.js.map', '/srv/src/lib/a.js'),
+    # directory names that extend one another as strings but are different path components (dist / dist-maps / dist-src)
+    'prefix_dirs': ('/srv/dist/a.min.js', '/srv/dist-maps/a.min.js.map', '/srv/dist-maps-src/a.js'),
     'relative': ('a.min.js', 'a.min.js.map', 'a.js'),
     'relative_subdir': ('build/a.min.js', 'build/maps/a.min.js.map', 'src/a.js'),
     # names whose UTF-8 JSON text needs the characters + and / of the standard base64 alphabet in an inline map
@@ -308,7 +310,7 @@ def main():
     tasks = []
     for out_kind in ('factory', 'open'):
         for map_kind in ('none', 'same', 'factory', 'open'):
-            for layout in (LAYOUTS if th else ('same_dir', 'map_deeper', 'relative', 'nonascii', 'relative_subdir')):
+            for layout in (LAYOUTS if th else ('same_dir', 'map_deeper', 'prefix_dirs', 'relative', 'nonascii', 'relative_subdir')):
                 for npaths in (True, False):
                     for nodes_kind in (('node', 'list') if th else ('node',)):
                         for pk in (('pretty', 'minify') if th else ('pretty',)):
